@@ -59,6 +59,9 @@ CHECKS['C19'] = ('model_checking', 'mirsym: Frame::from_reader over a fault-sche
 CHECKS['C20'] = ('translation_validation', 'mirsym on two MIR dumps (std / alloc-only): same symbolic explorations, z3 equality of outputs for every pair of jointly feasible paths',
                  'First half of the property only (serde half: see not_applicable note in DESIGN §3): decode + rendering for every path at lengths 7/14, get_position on two arbitrary reports, and one tracker step per frame class are compared between the two feature configurations; unsat = no input distinguishes the builds.', '§2 C20')
 
+CHECKS['C05'] = ('model_checking', 'mirsym: closed-form f64 terms of get_position / cpr_nl from symbolic execution of the MIR; z3 QF_FP/QF_BV queries per sub-claim; mpmath enclosures for the NL thresholds',
+                 'Decided: parity rule and panic-freedom for all inputs (bit-vector); the 58 NL transition latitudes (each within 1e-7 deg of the Annex formula) and the zone count in each of the 59 zones for every f64 latitude; existence of returned positions with latitude outside [-90,90] and of returned positions for pairs in different NL zones (known findings, witnesses replayed natively). Thorough adds the longitude range and the fmod side condition under a 900 s cap. Accuracy vs. the true position and re-encoding consistency are outside the claim.', '§2 C05')
+
 NOT_APPLICABLE = [
     ('C16', 'socket I/O, read timeouts and stream segmentation are environment behaviour inline in main(); no unit a solver can execute'),
     ('C17', 'pty/raw-mode/TUI event histories through crossterm + ratatui and threads; outside Kani and the MIR executor'),
@@ -66,7 +69,6 @@ NOT_APPLICABLE = [
 ]
 
 PENDING = {
-    'C05': 'check under construction (CPR, z3 QF_FP); not claimed yet',
     'C11': 'check under construction (Display templates); not claimed yet',
 }
 
